@@ -6,7 +6,7 @@
    repaired by the fix: commits 50fc060 and 1070095). *)
 From Coq Require Import ZArith List Bool Lia.
 From Mistletoe Require Import Base.Sx Base.PyStr Base.PyText Gen.GenTables Gen.GenConfig Model.Tree Model.CoreTokens Model.Block Model.Build
-     Model.MarkdownRenderer Model.Parser Proofs.PlainProse Proofs.Prose Proofs.ProseLines Proofs.ListLaw Proofs.FenceLaw Spec.Fragment Proofs.InertProse Proofs.FragmentP Proofs.FragmentDoc Proofs.FragmentHtml.
+     Model.MarkdownRenderer Model.Parser Proofs.PlainProse Proofs.Prose Proofs.ProseLines Proofs.ListLaw Proofs.FenceLaw Spec.Fragment Proofs.InertProse Proofs.RefSentence Proofs.LinkSentence Proofs.FragmentP Proofs.FragmentDoc Proofs.FragmentHtml.
 Import ListNotations.
 Local Open Scope Z_scope.
 
@@ -183,6 +183,22 @@ Section RT.
       destruct (nonempty _) eqn:En; [reflexivity|]. exfalso. unfold nonempty in En. cbn in En. discriminate.
   Qed.
 
+  Lemma rt_link c0 pre w dest post : wf_b (FLink c0 pre w dest post) = true -> RT (FLink c0 pre w dest post).
+  Proof.
+    intros Hw. destruct (link_wf _ _ _ _ _ Hw) as (Hok & _). destruct (link_parts _ _ _ _ _ Hok) as (Hpre & Hpw & Hpost & Hd).
+    assert (D10 : mem 10 dest = false) by (apply (LinkSentence.dest_no 10 dest eq_refl Hd)).
+    unfold RT, md_lines. cbn [tok_of block_lines spell map bare repeat app]. unfold span_to_lines. cbn [fragments_to_lines].
+    assert (EF : flat_map frags (RawText (c0 :: pre) :: LinkSentence.ilink_of w dest :: EmphSentence.raw_if post) =
+                [Fw (c0 :: pre); F [91]; Fw w; F [93]; F [40]; F dest; F [41]] ++ match post with [] => [] | _ => [Fw post] end).
+    { destruct post; reflexivity. }
+    rewrite EF. cbn [app plain_from ftext Fw F].
+    rewrite (plain_no 10 _ eq_refl Hpre), (plain_no 10 _ eq_refl Hpw), D10. cbn [mem existsb Z.eqb Pos.eqb orb app].
+    destruct post as [|z p] eqn:Ep.
+    - cbn [plain_from nonempty]. unfold link_body. rewrite !app_nil_r. cbn [app]. rewrite <- !app_assoc. reflexivity.
+    - rewrite <- Ep in *. cbn [plain_from ftext Fw]. rewrite (plain_no 10 _ eq_refl Hpost). cbn [plain_from]. unfold link_body. cbn [app]. rewrite <- !app_assoc.
+      destruct (nonempty _) eqn:En; [reflexivity|]. exfalso. unfold nonempty in En. cbn in En. discriminate.
+  Qed.
+
   Lemma rt_fence ch n content : wf_b (FFence ch n content) = true -> RT (FFence ch n content).
   Proof.
     intros Hw. destruct (fence_wf ch n content Hw) as ((Hch & Hn) & Hok & _).
@@ -232,9 +248,9 @@ Section RT.
   Proof.
     induction f as [|f IH].
     - intros t Hd Hw.
-      destruct t as [c body more|ch n content|ts|mk pad ts|mk pad ts bl next|lv hc hb|rc rn|e0 epre ech edbl ew epost]; [apply rt_para; exact Hw|apply rt_fence; assumption|cbn [depth] in Hd; lia|cbn [depth] in Hd; lia|cbn [depth] in Hd; lia|apply rt_head; exact Hw|apply rt_rule|apply rt_em; exact Hw].
-    - intros t. induction t as [c body more|ch n content|ts|mk pad ts|mk pad ts bl next IHn|lv hc hb|rc rn|e0 epre ech edbl ew epost]; intros Hd Hw;
-        [apply rt_para; exact Hw|apply rt_fence; assumption| | | |apply rt_head; exact Hw|apply rt_rule|apply rt_em; exact Hw].
+      destruct t as [c body more|ch n content|ts|mk pad ts|mk pad ts bl next|lv hc hb|rc rn|e0 epre ech edbl ew epost|l0 lpre lw ldest lpost]; [apply rt_para; exact Hw|apply rt_fence; assumption|cbn [depth] in Hd; lia|cbn [depth] in Hd; lia|cbn [depth] in Hd; lia|apply rt_head; exact Hw|apply rt_rule|apply rt_em; exact Hw|apply rt_link; exact Hw].
+    - intros t. induction t as [c body more|ch n content|ts|mk pad ts|mk pad ts bl next IHn|lv hc hb|rc rn|e0 epre ech edbl ew epost|l0 lpre lw ldest lpost]; intros Hd Hw;
+        [apply rt_para; exact Hw|apply rt_fence; assumption| | | |apply rt_head; exact Hw|apply rt_rule|apply rt_em; exact Hw|apply rt_link; exact Hw].
       + (* quote *)
         cbn [wf_b] in Hw. repeat rewrite andb_true_iff in Hw. destruct Hw as [[Hs Hall] Hg].
         assert (Hch : Forall RT ts).
